@@ -114,7 +114,6 @@ fn main() {
     if a.len() > 5 {
         let gid: u32 = a[4].parse().unwrap();
         let ppem: u32 = a[5].parse().unwrap();
-        let mut font = Font::new(&a[3]).unwrap();
         let t = |s: &str| match s {
             "mono" => HintingTarget::Mono,
             "light" => HintingTarget::Light,
